@@ -57,6 +57,7 @@ package parsigdb
 
 //@ func (db *MemDB) store
 //@ props C07 C01 C18
+//@ ensures r1 ==> ncalls(value.Clone) == 1
 //@ atomic
 //@ assigns db.entries, db.keysByDuty, db.exemptEntries
 //@ ensures r1 ==> r2 == nil
@@ -118,3 +119,10 @@ package parsigdb
 //@ loop 2 invariant !exempt ==> forallk(pk, output, hasShareOf(output[pk], signedSet[pk]))
 //@ loop 2 invariant ncalls(sub) == 0 && ncalls(core.SyncSubcommitteeIndex) == $i
 //@ loop 3 invariant ncalls(core.SyncSubcommitteeIndex) == len(signedSet)
+
+//@ func (db *MemDB) StoreInternal
+//@ props C07 C18
+//@ requires db.threshold >= 1
+//@ callreq sub: a3 == clone && ncalls(signedSet.Clone) == ncalls(sub) + 1 && ncalls(db.StoreExternal) == 1
+//@ ensures result == nil ==> ncalls(db.StoreExternal) == 1
+//@ loop 1 invariant ncalls(signedSet.Clone) == ncalls(sub) && ncalls(db.StoreExternal) == 1
